@@ -13,7 +13,7 @@ with tempfile.TemporaryDirectory(dir='/var/tmp') as td:
                           '-simulate', f'num={n * 40}', '-depth', '14', '-seed', str(seed), 'Virocon.tla'], cwd='/verif/spec', capture_output=True, text=True).stdout
     sessions = [json.loads(json.loads('"' + m + '"'))['hist'] for m in re.findall(r'<<"BEH", "(.*)">>', out)]
     sessions = ext_virocon.select_sessions(sessions, n)
-    tasks = [(ext_virocon.DESCS[k % 3], ops, td) for k, ops in enumerate(sessions)]
+    tasks = [(ext_virocon.DESCS[k % len(ext_virocon.DESCS)], ops, td) for k, ops in enumerate(sessions)]
     with ThreadPoolExecutor(12) as ex:
         res = list(ex.map(ext_virocon.run_one, tasks))
     nbad = 0
